@@ -149,7 +149,7 @@ def _index_tuple(
     if output.type_spec() != valueType:
         raise TypeError("Output type does not match value type")
 
-    if type(output) is Bool:
+    if isinstance(output, Bool):
         if ignoreNext > 0:
             # value is in the middle of a bool sequence
             bitOffsetInBoolSeq = lastBoolLength - ignoreNext
